@@ -76,6 +76,7 @@ func runC09(x *X) {
 				}
 			})
 	})
+	c09TallHook(x, targets, full)
 	// systematic long family: anomalous suffixes after every prefix of a long regular build
 	x.Explore("long-prefix+anomaly", ExploreOpts{ShardDepth: 2, Bound: fmt.Sprintf("prefix of a 12-op rectangular build (13) x all suffixes of <=%d ops over the full alphabet", x.Pick(1, 2))}, func(c *Chooser) {
 		b := NewBuilder(full)
@@ -126,6 +127,30 @@ func (b *Builder) applyNamed(c *Chooser, name string, fill int) {
 	}
 	panic("harness: op not enabled: " + name)
 }
+
+func init() {
+	c09TallHook = func(x *X, targets []Target, full *BuildCfg) {
+		x.Explore("tall-prefix+anomaly", ExploreOpts{ShardDepth: 1, Bound: "49..51 rows/separators built first, then every 1-op suffix over the full alphabet; all render targets"}, func(c *Chooser) {
+			b := NewBuilder(full)
+			n := 49 + c.Choose(3)
+			b.applyNamed(c, "AddHeaders/2", 0)
+			for i := 0; i < n; i++ {
+				if i%6 == 5 {
+					b.applyNamed(c, "AddSeparator", 0)
+				} else {
+					b.applyNamed(c, "AddRowItems/2", 0)
+				}
+			}
+			c.Logf("-- header + %d rows/separators built", n)
+			if b.Step(c, true) != "" {
+				x.Transition(1)
+			}
+			c09RenderAll(x, c, b, targets)
+		})
+	}
+}
+
+var c09TallHook func(x *X, targets []Target, full *BuildCfg)
 
 func c09RenderAll(x *X, c *Chooser, b *Builder, targets []Target) {
 	tags := b.Tags()
